@@ -399,14 +399,14 @@ def scan_trusted(run):
     em = run['em']
     items = []
     for t in em.trusted:
-        items.append(f"{run['unit']}.rs:{t['line']}: {t['what']}: {t['text']}")
+        items.append(f"{run['unit']}: {t['what']}: {t['text']}")
     return items
 
 
 FIXED_TRUST = [
     'rustc/LLVM compile the source text as Verus and Kani interpret it',
     'Verus 0.2026.09.13 + Z3 are sound; Kani 0.68 + CBMC 6.11 are sound',
-    'extraction rewrite rules R1-R13 (tools/rewrites.py, DESIGN 2.1) preserve semantics',
+    'extraction rewrite rules R1-R14 and the W1 reborrow (tools/rewrites.py, unit @@sub lines, DESIGN 2.1) preserve semantics',
     'usize is 64 bit (global size_of usize == 8); every allocation is <= isize::MAX bytes',
     'the Verus-side statement of each protocol-layer contract (verus/prelude/protocol.rs) is the one the Kani harness of the same name proves',
 ]
